@@ -174,6 +174,39 @@ def run(ctx):
             if len(res["samples"]) < 3:
                 res["samples"].append(dict(case=desc, aggregation=aggname, periods=len(out), daily_rows=len(daily),
                                            first_period=str(out.index[0]), predicted_first=float(out["predicted"].iloc[0])))
+        # the weighted billing model (same aggregation block, per-bill base rows): same oracle on its own unaggregated rows
+        if with_obs:
+            import contextlib as _cl, io as _io
+            from opendsm.eemeter.models.billing.weighted_model import BillingWeightedModel
+            try:
+                with _cl.redirect_stdout(_io.StringIO()):
+                    wm = BillingWeightedModel.from_dict(_doc(tz, st, rng))
+                base_w = wm.predict(rd)
+            except Exception as e:  # noqa  (construction / per-bill prediction of the development class is not C19's subject)
+                k_ = "weighted_unavailable:" + type(e).__name__
+                res["hist"][k_] = res["hist"].get(k_, 0) + 1
+                base_w = None
+            if base_w is not None and len(base_w):
+                for aggname, k in (("monthly", 1), ("bimonthly", 2)):
+                    res["evaluations"] += 1
+                    try:
+                        out_w = wm.predict(rd, aggregation=aggname)
+                        fails = oracle(base_w, out_w, k, True)
+                    except Exception as e:  # noqa
+                        fails = [("weighted_aggregation_raises", dict(error=f"{type(e).__name__}: {e}"[:120]))]
+                    for f in fails[:1]:
+                        res["oracle_failures"].append(dict(clause=f[0], detail=f[1], case=desc, aggregation=aggname, model="BillingWeightedModel"))
+                    res["hist"]["weighted:" + aggname] = res["hist"].get("weighted:" + aggname, 0) + 1
+                for arg in ["weekly", "Monthly", "", "NONE"]:
+                    try:
+                        wm.predict(rd, aggregation=arg)
+                        got_w = "accepted"
+                    except ValueError:
+                        got_w = "ValueError"
+                    except Exception as e:  # noqa
+                        got_w = type(e).__name__
+                    if (got_w == "ValueError") == (arg.lower() == "none"):
+                        res["oracle_failures"].append(dict(clause="bad_argument_rejected", argument=arg, behaviour=got_w, model="BillingWeightedModel"))
         # argument validation
         for arg in [None, "none", "NONE", "None", "monthly", "bimonthly", "Monthly", "MONTHLY", "weekly", "bi-monthly", "", "2MS", " monthly"]:
             try:
@@ -192,10 +225,20 @@ def run(ctx):
             if i < 3:
                 lines.append("parseagg " + ("-" if arg is None else (arg.encode().hex() or "")) if arg != "" else "parseagg 00")
                 metas.append(("parseagg", arg, got))
+                for cls_ in ("billing", "weighted"):
+                    lines.append(f"srcagg {cls_} " + ("-" if arg is None else ("00" if arg == "" else arg.encode().hex())))
+                    metas.append(("srcagg", arg, got))
     if ctx.get("model_ok", True):
         outs = core.run_driver(lines)
         for out, meta in zip(outs, metas):
             res["traces"] += 1
+            if meta[0] == "srcagg":
+                # the SOURCE's if-chain (re-extracted table, run by the driver) against what the real method did with the argument
+                _, arg, got = meta
+                exp = {"none": "ok noAgg", "monthly": "ok rule:MS", "bimonthly": "ok rule:2MS", "ValueError": "ok reject"}.get(got)
+                if exp is not None and out != exp:
+                    res["disagreements"].append(dict(op="srcagg", argument=arg, lean=out, impl=got))
+                continue
             if meta[0] == "parseagg":
                 _, arg, got = meta
                 if arg == "":
